@@ -226,13 +226,13 @@ def check_write_batch_bracket(ctx):
     C02.check_order(ctx, "C03.bracket/write_batch")
 
 
-def check_journal_validity(ctx):
+def check_journal_validity(ctx, inst="C03.journal-validity", position_inst="C03.journal-position"):
     """which journal entries recovery accepts: an intent whose extent ends exactly at the device end must replay (else a torn
     record there has no cover and the strict scan refuses the file), the journal position survives restarts (C04.position)"""
     from rules import C04
     from rules.common import pin_comparisons, closure_ret_cmp
-    inst = "C03.journal-validity"
-    C04.check_position(ctx, "C03.journal-position")
+    if position_inst:
+        C04.check_position(ctx, position_inst)
     b = ctx.fn("allocation_journal::decode_slot", inst)
     if b is None:
         return
@@ -257,7 +257,15 @@ def check_journal_validity(ctx):
         ctx.fail(inst, "PIN", b.path, "the device-end bound of a journal entry (`end <= total_sectors`) is not found", None)
 
 
+def check_token_agreement(ctx):
+    """recovery recomputes every v3 record token with its own fold; writer and reader must agree on every input (including the
+    reserved-zero remap) or a cleanly written file fails the strict scan at the next open (shared with C10.token)"""
+    from rules import C10
+    C10.check_token(ctx, "C03.token-agreement")
+
+
 def check(ctx):
+    check_token_agreement(ctx)
     check_journal_validity(ctx)
     check_losers(ctx)
     check_layer(ctx)
